@@ -81,6 +81,12 @@ func genEffects(c *Ctx) string {
 				case *ast.ParenExpr:
 					e = y.X
 					continue
+				case *ast.CallExpr:
+					// a pointer conversion (*T)(x) views the same data under another type
+					if _, isParen := y.Fun.(*ast.ParenExpr); isParen && len(y.Args) == 1 {
+						e = y.Args[0]
+						continue
+					}
 				}
 				break
 			}
@@ -100,7 +106,7 @@ func genEffects(c *Ctx) string {
 						continue
 					}
 					switch r := x.Rhs[i].(type) {
-					case *ast.Ident, *ast.UnaryExpr, *ast.SelectorExpr, *ast.IndexExpr, *ast.ParenExpr:
+					case *ast.Ident, *ast.UnaryExpr, *ast.SelectorExpr, *ast.IndexExpr, *ast.ParenExpr, *ast.CallExpr:
 						if root, sh := aliasRoot(r); sh {
 							if _, already := shared[id.Name]; !already {
 								shared[id.Name] = "alias of " + root + " through"
